@@ -332,7 +332,19 @@ def r2_sqlite(ctx: Context) -> None:
                 ctx.fail("R4.sqlite-function-of-arguments", f"sqlite3.save:{kw}", f"`{src(c_)[:70]}` {why}", save, c_)
     ctx.ok("R4.sqlite-function-of-arguments", "sqlite3.save:statements", f"{n_sql} SQL statement(s) executed by the SQLite save: whole-row replacement only")
     load = ctx.func(f"{SQL}:load_calibrator_state")
-    unpack = [s_ for s_ in walk_scope(load.node) if isinstance(s_, ast.Assign) and isinstance(s_.targets[0], ast.Tuple) and "SQL_LOAD_QUERY" in src(s_.value)]
+    def unpacking(fn):
+        return [s_ for s_ in walk_scope(fn.node) if isinstance(s_, ast.Assign) and isinstance(s_.targets[0], ast.Tuple) and "SQL_LOAD_QUERY" in src(s_.value)]
+
+    unpack = unpacking(load)
+    if not unpack:
+        # the row may be read by a helper whose result the load returns unchanged (`return _read_state(connection)`)
+        for r in [r for r in walk_scope(load.node) if isinstance(r, ast.Return) and isinstance(r.value, ast.Call)]:
+            tg = [t for t in ctx.prog.resolve_call(load, r.value) if not isinstance(t, str)]
+            if len(tg) == 1 and unpacking(tg[0]):
+                load = tg[0]
+                unpack = unpacking(load)
+                ctx.analysed(load)
+                break
     ctx.floor("R2", "SELECT unpacking in the SQLite load", len(unpack), 1)
     names = [src(t) for t in unpack[0].targets[0].elts]
     ctx.check(len(names) == len(cols["select"]), "R2.sqlite-columns", "sqlite3:select-arity", "one target per selected column", f"{len(names)} targets for {len(cols['select'])} columns", load, unpack[0])
